@@ -33,6 +33,18 @@ CHECKS = {
         "Trusted: reference interpreter; required columns compared with syntactic free columns; bounds: depth <= 3, 12 rows.",
         "DESIGN.md 3 C13",
     ),
+    "C04": (
+        "exhaustive enumeration of (existing, new) operation pairs x all bounded targets; real commute() output interpreted by the reference",
+        "Every ordered pair over 30 operation shapes is passed to the real commute(); the returned UnaryCommutator (first/second/done) is interpreted by the reference evaluator on all 585 row lists of length <= 3 over a 2x2x2 cube plus two rich lists and compared with existing-then-new, incl. well-formedness of both reported operations and the in-contract condition.",
+        "Trusted: reference evaluator and the library->mini-AST reverse map (vf/libmap.py); bounds: schema {a,b,c}+partners, targets of length <= 3.",
+        "DESIGN.md 3 C04",
+    ),
+    "C05": (
+        "exhaustive enumeration of adjacent operation pairs x bounded targets through the real factories in both engines",
+        "All 33^2 slice pairs on every target length 0..7, all 31^2 sort-term-list pairs on all 585 targets, all selection/projection/calculation pairs and every do-nothing form are applied through the real factories (iteration engine executed; SQL compiled and run on SQLite), must not raise, and must evaluate like the two operations in sequence; simplify() is also called directly and its result interpreted.",
+        "Trusted: reference evaluator; SQL order compared only where determined; bounds as stated in the rule.",
+        "DESIGN.md 3 C05",
+    ),
 }
 
 NOT_YET = "check not built yet in this revision (planned, see DESIGN.md section 3)"
